@@ -6,7 +6,7 @@ package oauth2
 // code). Comment-only: no code; visible only with the build tag "verif".
 //
 //@ func (*OAuth2).End
-//@   property C01 C03 C14 C15 C18 C17
+//@   property C01 C03 C07 C09 C14 C15 C18 C17
 //@   ensures[C17] no_secret_leak: secrets_clean
 //@   let provider = str_lower(filepath_base(r.URL.Path))
 //@   invariant loop#1 ctx_user_kept: ctxuser(r) == user
@@ -36,6 +36,11 @@ package oauth2
 //@       before Store.SaveOAuth2(?u) -> ?e :: e == nil && v == "oauth2;;" ++ provider ++ ";;" ++ OAuth2UID(u) &&
 //@       before Store.NewFromOAuth2(?prov, _) -> (?u2, ?e2) :: e2 == nil && u2 == u && prov == provider
 //@   ensures[C01] halfauth_cleared: each Sess.Put("uid", _) => after Sess.Del("halfauth")
+//@   -- C07: the half-auth mark of a remembered session is only cleared by a login that is in fact
+//@   -- written to the session
+//@   ensures[C07] halfauth_only_cleared_by_login: each Sess.Del("halfauth") => before Sess.Put("uid", _)
+//@   -- C09: an OAuth2 login is announced with the after-oauth2 event
+//@   ensures[C09] login_announced: each Sess.Put("uid", _) => after Fire("After", EventOAuth2, _, _, _)
 //@   ensures[C03] login_veto: each Sess.Put("uid", _) =>
 //@       before Fire("Before", EventOAuth2, ?cu, _, _) -> (?hd, ?e) :: hd == false && e == nil &&
 //@       before Store.SaveOAuth2(?u) -> _ :: cu == u
